@@ -347,6 +347,11 @@ def lowrank_target(c):
     ns, rho = c['ns'], c['rho']
     if c['scale'] == 'int':
         cores = [rng.integers(-3, 4, size=(rho[k], ns[k], rho[k + 1])).astype(float) for k in range(len(ns))]
+    elif c['scale'] == 'dyadic':
+        # entries k/8, never 0: every entry of the target is a short dyadic, exact in float32 (checked by the caller)
+        cores = [np.round(rng.normal(size=(rho[k], ns[k], rho[k + 1])) * 8) / 8 for k in range(len(ns))]
+        for G in cores:
+            G[G == 0] = 0.125
     else:
         cores = [rng.normal(size=(rho[k], ns[k], rho[k + 1])) for k in range(len(ns))]
     A = full(cores)
@@ -372,6 +377,9 @@ def oracle_exact(tn, c):
     def fail(what, **kw):
         return dict(what='C05: ' + what, input=dict(lowrank=c), **kw)
     A, Y0 = lowrank_target(c)
+    ret = c.get('ret')
+    if ret and not np.array_equal(A.astype(np.float32).astype(float), A):
+        ret = None                     # target not exact in float32: keep the float64 objective
     nA = np.linalg.norm(A)
     zero = not nA > 0
     if zero:
@@ -393,7 +401,8 @@ def oracle_exact(tn, c):
             ncall[0] += 1
             if kNone is not None and k == kNone:
                 return None
-            return A[tuple(np.asarray(I).T)]
+            y = A[tuple(np.asarray(I).T)]
+            return ret_convert(y, ret) if ret else y
         info = {}
         cache = {} if c['cache'] else None
         o_mv = tn._maxvol
@@ -432,7 +441,12 @@ def oracle_exact(tn, c):
             return None                # premise of the property (working ranks reached rho) not met
         if not all(np.isfinite(G).all() for G in Y):
             return fail(tag + 'result has non-finite entries')
+        if any(np.asarray(G).dtype != np.float64 for G in Y):
+            return fail(tag + 'returned cores are not float64', got=[str(np.asarray(G).dtype) for G in Y])
         err = np.linalg.norm(full(Y) - A) / nA
+        if ret and c['kind'] == 'fixed' and not err <= 1e-10:
+            return fail(tag + f'float32-exact rank-rho target through an objective returning {ret} not reproduced to '
+                        'double precision', got=float(err), expected='<= 1e-10', ranks=rk)
         if not err <= (0.0 if zero else 1e-6):
             return fail(tag + 'rank-rho target not reproduced', got=float(err), expected='<= 1e-6', ranks=rk,
                         stop=info.get('stop'), kNone=c.get('kNone'))
@@ -456,7 +470,9 @@ def oracle_exact(tn, c):
     # inherited from the pre-iteration can be degenerate for the target with positive probability (two of its rows
     # differing only in an over-ranked bond give parallel columns) - observed: error ~0.1 after the first half sweep,
     # gone one half sweep later; that regime is outside the statement of the property (and of C05_cross_exact).
-    if ncall > d and c['kind'] == 'fixed':
+    # (not for the dyadic targets of the return-form family: a k/8 grid is not a continuous distribution, an index set
+    # inherited from the pre-iteration can meet a singular intersection - 2 cases in 6000)
+    if ncall > d and c['kind'] == 'fixed' and c['scale'] != 'dyadic':
         k = c.get('kNone')
         if k is None:
             k = d + (c['seed'] * 7919) % (ncall - d)
@@ -777,6 +793,87 @@ def oracle_objhist(tn, h):
             if not feq(info[k_], inff[k_]):
                 return fail(f'info[{k_}] differs between reused-object call and fresh call', call=k)
     return None
+
+
+
+RET_FORMS = ['float64', 'float32', 'int64', 'int32', 'list', 'noncontig', 'float16']
+
+
+def ret_convert(y, form):
+    """the objective's return value in another documented-compatible form (the values stay exactly representable)"""
+    y = np.asarray(y, dtype=float)
+    if form == 'float32':
+        return y.astype(np.float32)
+    if form == 'float16':
+        return y.astype(np.float16) if np.array_equal(y.astype(np.float16).astype(float), y) else y.astype(np.float32)
+    if form == 'int64':
+        return y.astype(np.int64)
+    if form == 'int32':
+        return y.astype(np.int32)
+    if form == 'list':
+        return [float(v) for v in y]
+    if form == 'noncontig':
+        big = np.zeros(2 * len(y))
+        big[::2] = y
+        return big[::2]
+    return y
+
+
+def oracle_ret_pair(tn, cfg):
+    """objective-return forms: the objective (small integer values, exact in every form) returns float64 / float32 /
+    float16 / int64 / int32 arrays, a Python list or a non-contiguous view.  Every run must work in float64: cores of
+    dtype float64, bitwise equal to the run whose objective returns float64, with and without cache"""
+    form = cfg.get('ret') or 'float32'
+    cfg = dict(cfg, kNone=None)
+
+    def _fail(what, cfg_, **kw):
+        d_ = dict(what='C05: ' + what, input=dict(L.describe(cfg_), ret=form), **kw)
+        return d_
+    g64 = lambda I: L.gfun(cfg['a'], cfg['b'], cfg['p'], I)
+    gf = lambda I: ret_convert(g64(I), form)
+    cu = dict(cfg, cache=None)
+    cc = dict(cfg, cache=(cfg['cache'] if cfg['cache'] is not None else []))
+    try:
+        oref = observe(tn, cu, g64)
+        ou = observe(tn, cu, gf)
+        oc = observe(tn, cc, gf)
+    except L.TooLong:
+        return None
+    if oref['exc'] is not None:
+        return None
+    for tag, o in (('without cache', ou), ('with cache', oc)):
+        if o['exc'] is not None:
+            return _fail(f'objective returning {form}: cross raised {tag}: ' + repr(o['exc'])[:200], cfg, ret=form)
+        bad = [str(np.asarray(G).dtype) for G in o['Y'] if np.asarray(G).dtype != np.float64]
+        if bad:
+            return _fail(f'objective returning {form}: returned cores are not float64 ({tag})', cfg, got=bad, ret=form)
+    if not cores_equal(ou['Y'], oref['Y']) or ou['info']['nswp'] != oref['info']['nswp'] or \
+            ou['info']['stop'] != oref['info']['stop'] or ou['info']['m'] != oref['info']['m']:
+        return _fail(f'objective returning {form} instead of float64 changes the result of the run without cache', cfg,
+                     ret=form, got=[ou['info']['stop'], ou['info']['nswp']])
+    for k in ('r', 'e', 'e_vld'):
+        if not feq(ou['info'][k], oref['info'][k]):
+            return _fail(f'objective returning {form} instead of float64 changes info[{k}]', cfg, ret=form,
+                         got=float(ou['info'][k]), expected=float(oref['info'][k]))
+    if any(not isinstance(v, float) for v in oc['cache'].values()) or \
+            any(v != float(g64(np.array([k_]))[0]) for k_, v in oc['cache'].items()):
+        return _fail(f'objective returning {form}: cache values are not the float objective values', cfg, ret=form)
+    if ou['info']['stop'] != 'm' and oc['info']['stop'] != 'conv':
+        if not cores_equal(ou['Y'], oc['Y']) or ou['info']['nswp'] != oc['info']['nswp'] or \
+                ou['info']['stop'] != oc['info']['stop']:
+            return _fail(f'objective returning {form}: cached and uncached runs differ', cfg, ret=form)
+        for k in ('r', 'e', 'e_vld'):
+            if not feq(ou['info'][k], oc['info'][k]):
+                return _fail(f'objective returning {form}: cache changes info[{k}]', cfg, ret=form)
+    return None
+
+
+def gen_lowrank_ret(rng):
+    c = gen_lowrank(rng, kind=rng.choice(['fixed', 'fixed', 'grow']))
+    c['scale'] = 'dyadic'
+    c['ret'] = rng.choice(['float32', 'float32', 'list', 'noncontig', 'float64'])
+    c['nswp'] = max(c['nswp'], 2)
+    return c
 
 
 # ------------------------------------------------------------------------------------------------ correspondence
@@ -1116,6 +1213,20 @@ def correspondence(R, ctx):
                        comparison='info r / e_vld / e recomputed on the returned cores (bitwise); reference of e = '
                                   'copy made at sweep start = independent snapshot of the previous sweep',
                        distribution={}, first_mismatches=info_bad[:3]))
+    rbad, nr_ = [], 0
+    for _ in range(300 if thorough else 70):
+        cfg = dict(_pair_cfg(rng, small=rng.random() < 0.4), ret=rng.choice(RET_FORMS))
+        nr_ += 1
+        R.add_distinct(('ret', L.describe(cfg), cfg['ret']))
+        fl = oracle_ret_pair(tn, cfg)
+        if fl:
+            rbad.append(fl)
+    R.corr.append(dict(name='objective-return forms (float64 / float32 / float16 / int64 / int32 / list / non-contiguous) '
+                            'in cached / uncached pairs', cases=nr_, mismatches=len(rbad),
+                       comparison='cores float64 and bitwise equal to the float64-objective run, with and without cache; '
+                                  'info r/e/e_vld bitwise; cache values Python floats',
+                       distribution=dict(forms=RET_FORMS), first_mismatches=rbad[:3]))
+    pair_bad = pair_bad + rbad
     hbad, nh = [], 0
     for _ in range(300 if thorough else 60):
         h = gen_history(rng)
@@ -1178,7 +1289,8 @@ def search(R, ctx, deep, hints):
         except Exception:
             pass
     for j in range(4000 if deep else 600):
-        c = gen_small_growth(rng) if j % 3 == 2 else (gen_degenerate(rng) if j % 6 == 1 else gen_lowrank(rng))
+        c = gen_small_growth(rng) if j % 3 == 2 else (gen_degenerate(rng) if j % 6 == 1 else
+                                                      (gen_lowrank_ret(rng) if j % 6 == 4 else gen_lowrank(rng)))
         n1 += 1
         f = oracle_exact(tn, c)
         if f:
@@ -1198,6 +1310,8 @@ def search(R, ctx, deep, hints):
             pass
     for _ in range(800 if deep else 100):
         cand.append(_pair_cfg(rng))
+    for _ in range(500 if deep else 80):
+        cand.append(dict(_pair_cfg(rng, small=rng.random() < 0.4), ret=rng.choice(RET_FORMS)))
     k0 = len(fails)
     for cfg in cand:
         if not (isinstance(cfg, dict) and 'ns' in cfg):
@@ -1207,6 +1321,12 @@ def search(R, ctx, deep, hints):
             cfg['cache'] = [(list(k), v) for k, v in cfg['cache']]
         n2 += 1
         keep = {}
+        if cfg.get('ret'):
+            f = oracle_ret_pair(tn, cfg)
+            if f:
+                f['kind'] = 'ret'
+                fails.append(f)
+            continue
         f = oracle_pair(tn, cfg, keep)
         if f:
             f['kind'] = 'pair'
@@ -1311,8 +1431,11 @@ def replay(data):
         cfg = dict(inp)
         if cfg.get('cache') is not None:
             cfg['cache'] = [(list(k), v) for k, v in cfg['cache']]
-        f = oracle_pair(tn, cfg) or oracle_info(tn, dict(cfg, kNone=None)) or \
-            oracle_info(tn, dict(cfg, cache=None, kNone=None))
+        if cfg.get('ret'):
+            f = oracle_ret_pair(tn, cfg)
+        else:
+            f = oracle_pair(tn, cfg) or oracle_info(tn, dict(cfg, kNone=None)) or \
+                oracle_info(tn, dict(cfg, cache=None, kNone=None))
         print('replayed:', f)
         return 1 if f else 0
     return 1
